@@ -312,6 +312,7 @@ func ruleC13(c *Ctx, r *Report) {
 	// ---- R3 single definition: no other hashing in the package
 	r.Floor("C13-R3", 1, "hash call sites")
 	pseudonymVerbatimRule(c, r, hn, "C13-R3")
+	noDoubleRewriteRule(c, r, "C13-R3")
 	for _, f := range c.SortedFuncs() {
 		allInstrs(f, func(i ssa.Instruction) {
 			cc := callCommonOf(i)
